@@ -39,6 +39,7 @@ Proof. exact (open_only_filename_sound gen_graph gen_entries gen_sinks gen_open_
 (* reflective uses of text-derived names: exactly the known places *)
 Definition parse_reflective_allow : list (string * kind) :=
   [("diffpy.structure.parsers.p_xcfg:_assign_auxiliaries"%string, KSetattr);
+   ("diffpy.structure.parsers.p_xcfg:_assign_auxiliaries"%string, KGetattr);
    ("diffpy.structure.structure:Structure.__emptySharedStructure"%string, KGetattr)].
 Definition write_reflective_allow : list (string * kind) :=
   parse_reflective_allow ++ [("diffpy.structure.parsers.p_xcfg:P_xcfg.toLines"%string, KFormat)].
